@@ -308,11 +308,33 @@ def _loop_returns(stmts, flag=True):
     return out
 
 
+def bool_guard_expr(body):
+    """`if c1: return False` / `if c2: return True` guards followed by `return E` as ONE expression with the same short-circuit
+    order: (not c1) and (c2 or E).  Returns the expression AST or None."""
+    if not body or not isinstance(body[-1], ast.Return) or body[-1].value is None:
+        return None
+    expr = body[-1].value
+    for st in reversed(body[:-1]):
+        if not (isinstance(st, ast.If) and not st.orelse and len(st.body) == 1 and isinstance(st.body[0], ast.Return) and
+                isinstance(st.body[0].value, ast.Constant) and isinstance(st.body[0].value.value, bool)):
+            return None
+        if st.body[0].value.value is False:
+            expr = ast.BoolOp(op=ast.And(), values=[negate(st.test), expr])
+        else:
+            expr = ast.BoolOp(op=ast.Or(), values=[st.test, expr])
+    return expr
+
+
 def helper_shape(fn):
     """(body statements without docstring and without returns, result expression or None) if inlinable."""
     body = list(fn.body)
     if body and isinstance(body[0], ast.Expr) and isinstance(body[0].value, ast.Constant) and isinstance(body[0].value.value, str):
         body = body[1:]
+    if len(body) > 1 and not (fn.args.vararg or fn.args.kwarg or fn.args.kwonlyargs):
+        be = bool_guard_expr(body)
+        if be is not None:
+            ast.fix_missing_locations(ast.Expression(body=be))
+            return [], be
     if fn.args.vararg or fn.args.kwarg or fn.args.kwonlyargs:
         return None
     for s in body:
@@ -366,6 +388,17 @@ class Inliner:
         self.module_helpers = {n.name: n for n in tree.body if isinstance(n, ast.FunctionDef) and n.name not in self.known_functions}
         self.counter = 0
         self.inlined = []
+        self.local_helpers = {}
+        self.reduce_names = {"functools.reduce"}
+        for n in tree.body:
+            if isinstance(n, ast.ImportFrom) and n.module == "functools":
+                for a in n.names:
+                    if a.name == "reduce":
+                        self.reduce_names.add(a.asname or a.name)
+            elif isinstance(n, ast.Import):
+                for a in n.names:
+                    if a.name == "functools" and a.asname:
+                        self.reduce_names.add(a.asname + ".reduce")
 
     def helpers_of(self, cls):
         known = self.known_methods.get(cls.name)
@@ -436,6 +469,8 @@ class Inliner:
         if isinstance(f, ast.Attribute) and isinstance(f.value, ast.Name) and cls is not None:
             if f.value.id in ("self", cls.name) and f.attr in helpers:
                 return helpers[f.attr], True
+        if isinstance(f, ast.Name) and f.id in self.local_helpers:
+            return self.local_helpers[f.id], False
         if isinstance(f, ast.Name) and f.id in self.module_helpers:
             return self.module_helpers[f.id], False
         return None, False
@@ -531,8 +566,17 @@ class Inliner:
                     if t.value.value is None:
                         ok[0] = False
                         continue
-                    out.append(ast.Assign(targets=[copy.deepcopy(target)], value=t.value.value))
-                    out.extend(copy.deepcopy(loop_body))
+                    v = t.value.value
+                    stores = {n.id for b2 in loop_body for n in ast.walk(b2) if isinstance(n, ast.Name) and isinstance(n.ctx, ast.Store)}
+                    body_ids = {id(m) for b2 in loop_body for m in ast.walk(b2)}
+                    if isinstance(target, ast.Name) and isinstance(v, ast.Name) and target.id not in stores and v.id not in stores and \
+                            not any(isinstance(n, (ast.FunctionDef, ast.Lambda)) for b2 in loop_body for n in ast.walk(b2)) and \
+                            not any(isinstance(n, ast.Name) and n.id == target.id and id(n) not in body_ids and n is not target for n in ast.walk(fn)):
+                        # the loop variable is only read inside the body: the yielded variable is read in its place
+                        out.extend(_Rename({}, {target.id: v}).visit(copy.deepcopy(b2)) for b2 in loop_body)
+                    else:
+                        out.append(ast.Assign(targets=[copy.deepcopy(target)], value=v))
+                        out.extend(copy.deepcopy(loop_body))
                 elif isinstance(t, ast.Expr) and isinstance(t.value, ast.YieldFrom):
                     out.append(ast.For(target=copy.deepcopy(target), iter=t.value.value, body=copy.deepcopy(loop_body), orelse=[]))
                 elif isinstance(t, (ast.For, ast.While)) and not t.orelse:
@@ -625,10 +669,76 @@ class Inliner:
     def inline_in(self, fn, cls, helpers):
         changed = [False]
         me = self
+        # nested functions (closures) defined at the top level of fn, bound once, without nonlocal/global/defaults: they read
+        # the enclosing variables where they are called, so inlining them in place is the same computation
+        self.local_helpers = {}
+        for st in fn.body:
+            if isinstance(st, ast.FunctionDef) and not st.decorator_list and not st.args.defaults and \
+                    sum(1 for n in ast.walk(fn) if isinstance(n, ast.Name) and n.id == st.name and isinstance(n.ctx, ast.Store)) == 0 and \
+                    sum(1 for n in ast.walk(fn) if isinstance(n, ast.FunctionDef) and n.name == st.name) == 1 and \
+                    not any(isinstance(n, (ast.Nonlocal, ast.Global)) for n in ast.walk(st)):
+                # variables the closure reads must not be rebound between its definition and its calls in a way that matters:
+                # a closure reads the CURRENT value at call time, exactly like inlined code does - always equivalent
+                self.local_helpers[st.name] = st
 
         def in_block(stmts):
             out = []
             for s in stmts:
+                # T = functools.reduce(F, IT, INIT)  ->  acc = INIT; for k in IT: acc = F(acc, k); T = acc     (the definition of reduce)
+                rc = s.value if isinstance(s, (ast.Assign, ast.Return)) and isinstance(getattr(s, "value", None), ast.Call) else None
+                if rc is not None and src(rc.func) in me.reduce_names and len(rc.args) == 3 and not rc.keywords and \
+                        isinstance(rc.args[0], (ast.Name, ast.Attribute)) and \
+                        (isinstance(s, ast.Return) or (len(s.targets) == 1 and isinstance(s.targets[0], ast.Name))):
+                    me.counter += 1
+                    acc, kv = "__acc%d" % me.counter, "__k%d" % me.counter
+                    init = ast.Assign(targets=[ast.Name(id=acc, ctx=ast.Store())], value=rc.args[2])
+                    step = ast.Assign(targets=[ast.Name(id=acc, ctx=ast.Store())], value=ast.Call(
+                        func=rc.args[0], args=[ast.Name(id=acc, ctx=ast.Load()), ast.Name(id=kv, ctx=ast.Load())], keywords=[]))
+                    loop = ast.For(target=ast.Name(id=kv, ctx=ast.Store()), iter=rc.args[1], body=[step], orelse=[])
+                    s.value = ast.Name(id=acc, ctx=ast.Load())
+                    for t in (init, loop):
+                        ast.copy_location(t, s)
+                        ast.fix_missing_locations(t)
+                    ast.fix_missing_locations(s)
+                    out.extend(in_block([init, loop]))
+                    changed[0] = True
+                # for v in map(self._helper, X): BODY  ->  for m in X: v = self._helper(m); BODY   (map is lazy: same order of calls)
+                if isinstance(s, ast.For) and isinstance(s.iter, ast.Call) and isinstance(s.iter.func, ast.Name) and s.iter.func.id == "map" and \
+                        len(s.iter.args) == 2 and not s.iter.keywords and isinstance(s.iter.args[0], (ast.Attribute, ast.Name)):
+                    probe = ast.Call(func=s.iter.args[0], args=[ast.Name(id="__probe", ctx=ast.Load())], keywords=[])
+                    hm, _m = me.match_call(probe, cls, helpers)
+                    if hm is not None and hm is not fn:
+                        me.counter += 1
+                        mv = "__elem%d" % me.counter
+                        first = ast.Assign(targets=[s.target], value=ast.Call(func=s.iter.args[0], args=[ast.Name(id=mv, ctx=ast.Load())], keywords=[]))
+                        s.target = ast.Name(id=mv, ctx=ast.Store())
+                        s.iter = s.iter.args[1]
+                        s.body = [first] + s.body
+                        ast.copy_location(first, s)
+                        ast.fix_missing_locations(s)
+                        changed[0] = True
+                # x = list(self._gen(..))  ->  x = []; for e in self._gen(..): x.append(e)
+                if isinstance(s, ast.Assign) and len(s.targets) == 1 and isinstance(s.targets[0], ast.Name) and \
+                        isinstance(s.value, ast.Call) and isinstance(s.value.func, ast.Name) and s.value.func.id == "list" and \
+                        len(s.value.args) == 1 and not s.value.keywords and isinstance(s.value.args[0], ast.Call):
+                    hg, _m = me.match_call(s.value.args[0], cls, helpers)
+                    if hg is not None and hg is not fn and any(isinstance(x, (ast.Yield, ast.YieldFrom)) for x in ast.walk(hg)):
+                        me.counter += 1
+                        ev = "__item%d" % me.counter
+                        x = s.targets[0].id
+                        init = ast.Assign(targets=[ast.Name(id=x, ctx=ast.Store())], value=ast.List(elts=[], ctx=ast.Load()))
+                        loop = ast.For(target=ast.Name(id=ev, ctx=ast.Store()), iter=s.value.args[0], orelse=[], body=[ast.Expr(value=ast.Call(
+                            func=ast.Attribute(value=ast.Name(id=x, ctx=ast.Load()), attr="append", ctx=ast.Load()),
+                            args=[ast.Name(id=ev, ctx=ast.Load())], keywords=[]))])
+                        for t in (init, loop):
+                            ast.copy_location(t, s)
+                            ast.fix_missing_locations(t)
+                        g = me.inline_generator_loop(loop, cls, helpers, fn)
+                        if g is not None:
+                            out.append(init)
+                            out.extend(in_block(g))
+                            changed[0] = True
+                            continue
                 g = me.inline_generator_loop(s, cls, helpers, fn)
                 if g is not None:
                     out.extend(in_block(g))
@@ -677,6 +787,12 @@ class Inliner:
                 out.append(s2)
             return out
         fn.body = in_block(fn.body)
+        if self.local_helpers:
+            for name, st in list(self.local_helpers.items()):
+                refs = [n for n in ast.walk(fn) if isinstance(n, ast.Name) and n.id == name and not any(n is x for x in ast.walk(st))]
+                if not refs and st in fn.body:
+                    fn.body.remove(st)
+            self.local_helpers = {}
         return changed[0]
 
     def inline_exprs(self, stmt, fn, cls, helpers, changed):
@@ -1516,25 +1632,661 @@ def forward_unpack_targets(fn, known):
     return k
 
 
+def seed_list_literals(fn):
+    """x = [a..]  followed in the same block (nothing in between mentions x or rebinds a..) by  x.append(e)  ->  x = [a.., e] at
+    the append's place; repeated, so that several leading appends build one literal."""
+    k = 0
+    again = True
+    while again:
+        again = False
+        for blk in _blocks(fn):
+            for i, s in enumerate(blk):
+                if not (isinstance(s, ast.Assign) and len(s.targets) == 1 and isinstance(s.targets[0], ast.Name) and isinstance(s.value, ast.List) and
+                        all(isinstance(e, (ast.Name, ast.Constant)) for e in s.value.elts)):
+                    continue
+                x = s.targets[0].id
+                for j in range(i + 1, len(blk)):
+                    t = blk[j]
+                    if isinstance(t, ast.Expr) and isinstance(t.value, ast.Call) and isinstance(t.value.func, ast.Attribute) and \
+                            t.value.func.attr == "append" and isinstance(t.value.func.value, ast.Name) and t.value.func.value.id == x and \
+                            len(t.value.args) == 1 and not t.value.keywords and not _mentions_name(t.value.args[0], x):
+                        between = blk[i + 1:j]
+                        rd = {n.id for e in s.value.elts for n in ast.walk(e) if isinstance(n, ast.Name)}
+                        wr = {n.id for b in between for n in ast.walk(b) if isinstance(n, ast.Name) and isinstance(n.ctx, ast.Store)}
+                        if rd & wr:
+                            break
+                        new = ast.Assign(targets=[ast.Name(id=x, ctx=ast.Store())],
+                                         value=ast.List(elts=list(s.value.elts) + [t.value.args[0]], ctx=ast.Load()))
+                        ast.copy_location(new, t)
+                        ast.fix_missing_locations(new)
+                        blk[j] = new
+                        del blk[i]
+                        k += 1
+                        again = True
+                        break
+                    if _mentions_name(t, x):
+                        break
+                if again:
+                    break
+            if again:
+                break
+    return k
+
+
+def last_element_reads(fn):
+    """x[-1] where x is a local list that is only ever built by `x = [.., v]` / `x.append(v)` and read (never aliased, passed
+    on or mutated otherwise), at a point where on every path the most recent of those writes put the variable v last and v has
+    not been rebound since: the read is v (forward must-dataflow on the function's control-flow graph)."""
+    from . import cfg as C
+    from . import effects as E
+    reads = [n for n in ast.walk(fn) if isinstance(n, ast.Subscript) and isinstance(n.ctx, ast.Load) and isinstance(n.value, ast.Name) and
+             isinstance(n.slice, ast.UnaryOp) and isinstance(n.slice.op, ast.USub) and isinstance(n.slice.operand, ast.Constant) and n.slice.operand.value == 1]
+    if not reads:
+        return 0
+    par = {}
+    for n in ast.walk(fn):
+        for c in ast.iter_child_nodes(n):
+            par[id(c)] = n
+    params = {a.arg for a in fn.args.args + fn.args.kwonlyargs + fn.args.posonlyargs}
+    lists = set()
+    for x in {r.value.id for r in reads} - params:
+        ok = True
+        for n in ast.walk(fn):
+            if not (isinstance(n, ast.Name) and n.id == x):
+                continue
+            p = par.get(id(n))
+            if isinstance(n.ctx, ast.Store):
+                if not (isinstance(p, ast.Assign) and len(p.targets) == 1 and p.targets[0] is n and isinstance(p.value, ast.List)):
+                    ok = False
+                continue
+            if isinstance(p, ast.Subscript) and p.value is n and isinstance(p.ctx, ast.Load):
+                continue
+            if isinstance(p, ast.Attribute) and p.attr == "append" and isinstance(par.get(id(p)), ast.Call) and par[id(p)].func is p:
+                continue
+            if isinstance(p, ast.Call) and isinstance(p.func, ast.Name) and p.func.id == "len":
+                continue
+            if isinstance(p, ast.Return) or (isinstance(p, ast.Tuple) and isinstance(par.get(id(p)), ast.Return)):
+                continue
+            if isinstance(p, ast.For) and p.iter is n:
+                continue
+            ok = False
+        if ok:
+            lists.add(x)
+    if not lists:
+        return 0
+    try:
+        g = C.CFG(fn)
+    except Exception:
+        return 0
+
+    def transfer(node, st):
+        st = dict(st)
+        a = node.ast
+        if a is None:
+            return st
+        if node.kind == "stmt":
+            if isinstance(a, ast.Assign) and len(a.targets) == 1 and isinstance(a.targets[0], ast.Name) and a.targets[0].id in lists:
+                x = a.targets[0].id
+                if a.value.elts and isinstance(a.value.elts[-1], ast.Name):
+                    st[x] = a.value.elts[-1].id
+                else:
+                    st.pop(x, None)
+                return st
+            if isinstance(a, ast.Expr) and isinstance(a.value, ast.Call) and isinstance(a.value.func, ast.Attribute) and a.value.func.attr == "append" and \
+                    isinstance(a.value.func.value, ast.Name) and a.value.func.value.id in lists:
+                x = a.value.func.value.id
+                if len(a.value.args) == 1 and isinstance(a.value.args[0], ast.Name):
+                    st[x] = a.value.args[0].id
+                else:
+                    st.pop(x, None)
+                return st
+        for r in E.node_exprs(node):
+            for n in ast.walk(r):
+                if isinstance(n, ast.Name) and isinstance(n.ctx, (ast.Store, ast.Del)):
+                    for x in [x for x, v in st.items() if v == n.id]:
+                        del st[x]
+                if isinstance(n, ast.Call) and isinstance(n.func, ast.Attribute) and n.func.attr == "append" and isinstance(n.func.value, ast.Name) and \
+                        n.func.value.id in lists:
+                    st.pop(n.func.value.id, None)      # an append nested in a larger statement
+        return st
+    IN = {g.entry: {}}
+    work = [g.entry]
+    OUT = {}
+    while work:
+        n = work.pop()
+        o = transfer(n, IN[n])
+        if OUT.get(n) == o and n in OUT:
+            continue
+        OUT[n] = o
+        for s2 in g.G.successors(n):
+            if s2 not in IN:
+                IN[s2] = dict(o)
+                work.append(s2)
+            else:
+                m = {x: v for x, v in IN[s2].items() if o.get(x) == v}
+                if m != IN[s2] or s2 not in OUT:
+                    IN[s2] = m
+                    work.append(s2)
+    k = 0
+    for r in reads:
+        x = r.value.id
+        if x not in lists:
+            continue
+        try:
+            node = g.node_of(r)
+        except Exception:
+            continue
+        v = IN.get(node, {}).get(x)
+        if v is None:
+            continue
+        # inside an append statement of x itself the read still sees the previous last element: fine, IN is the state before
+        p = par.get(id(r))
+        new = ast.copy_location(ast.Name(id=v, ctx=ast.Load()), r)
+        for field, val in ast.iter_fields(p):
+            if val is r:
+                setattr(p, field, new)
+                k += 1
+            elif isinstance(val, list):
+                for i, e in enumerate(val):
+                    if e is r:
+                        val[i] = new
+                        k += 1
+    return k
+
+
+def record_types(tree):
+    """Module-level immutable record types: Name = namedtuple("..", [fields]) -> {Name: [fields]}"""
+    out = {}
+    ctor = {"collections.namedtuple"}
+    for n in tree.body:
+        if isinstance(n, ast.ImportFrom) and n.module == "collections":
+            for a in n.names:
+                if a.name == "namedtuple":
+                    ctor.add(a.asname or a.name)
+        elif isinstance(n, ast.Import):
+            for a in n.names:
+                if a.name == "collections" and a.asname:
+                    ctor.add(a.asname + ".namedtuple")
+    for st in tree.body:
+        if isinstance(st, ast.Assign) and len(st.targets) == 1 and isinstance(st.targets[0], ast.Name) and isinstance(st.value, ast.Call) and \
+                src(st.value.func) in ctor and len(st.value.args) == 2 and not st.value.keywords:
+            f = st.value.args[1]
+            fields = None
+            if isinstance(f, (ast.List, ast.Tuple)) and all(isinstance(e, ast.Constant) and isinstance(e.value, str) for e in f.elts):
+                fields = [e.value for e in f.elts]
+            elif isinstance(f, ast.Constant) and isinstance(f.value, str):
+                fields = f.value.replace(",", " ").split()
+            if fields and len(set(fields)) == len(fields):
+                out[st.targets[0].id] = fields
+    for name in list(out):
+        if sum(1 for n in ast.walk(tree) if isinstance(n, ast.Name) and n.id == name and isinstance(n.ctx, ast.Store)) != 1:
+            del out[name]
+    return out
+
+
+def scalarise_records(fn, rectypes):
+    """A local that only ever holds freshly built records of one module-level namedtuple type and is only read field by field
+    is replaced by one local per field (scalar replacement of aggregates): x = T(a, b) -> (x_f1, x_f2) = (a, b); x.f1 -> x_f1."""
+    if not rectypes:
+        return 0
+    par = {}
+    for n in ast.walk(fn):
+        for c in ast.iter_child_nodes(n):
+            par[id(c)] = n
+    params = {a.arg for a in fn.args.args + fn.args.kwonlyargs + fn.args.posonlyargs}
+    names = {}
+    for n in ast.walk(fn):
+        if isinstance(n, ast.Name) and n.id not in params:
+            names.setdefault(n.id, []).append(n)
+    taken = set(names) | params
+    k = 0
+    for x, occ in sorted(names.items()):
+        T = None
+        ok = True
+        stores = []
+        loads = []
+        for n in occ:
+            p = par.get(id(n))
+            if isinstance(n.ctx, ast.Store):
+                if isinstance(p, ast.Assign) and len(p.targets) == 1 and p.targets[0] is n and isinstance(p.value, ast.Call) and \
+                        isinstance(p.value.func, ast.Name) and p.value.func.id in rectypes and (T is None or T == p.value.func.id):
+                    T = p.value.func.id
+                    stores.append(p)
+                else:
+                    ok = False
+            elif isinstance(n.ctx, ast.Load):
+                if isinstance(p, ast.Attribute) and p.value is n and isinstance(p.ctx, ast.Load):
+                    loads.append(p)
+                elif isinstance(p, ast.Subscript) and p.value is n and isinstance(p.ctx, ast.Load) and isinstance(p.slice, ast.Constant) and isinstance(p.slice.value, int):
+                    loads.append(p)
+                else:
+                    ok = False
+            else:
+                ok = False
+        if not ok or T is None or not stores:
+            continue
+        fields = rectypes[T]
+        # every construction names each field exactly once
+        argmaps = []
+        for st in stores:
+            c = st.value
+            if any(isinstance(a, ast.Starred) for a in c.args) or any(kw.arg is None for kw in c.keywords) or len(c.args) + len(c.keywords) != len(fields):
+                ok = False
+                break
+            m = [(fields[i], a) for i, a in enumerate(c.args)] + [(kw.arg, kw.value) for kw in c.keywords]
+            if sorted(f for f, _ in m) != sorted(fields):
+                ok = False
+                break
+            argmaps.append(m)
+        if not ok:
+            continue
+        fld = {}
+        for l in loads:
+            if isinstance(l, ast.Attribute):
+                if l.attr not in fields:
+                    ok = False
+            elif not (-len(fields) <= l.slice.value < len(fields)):
+                ok = False
+        if not ok:
+            continue
+        for f in fields:
+            nm = "%s_%s" % (x, f)
+            while nm in taken:
+                nm += "_"
+            taken.add(nm)
+            fld[f] = nm
+        for st, m in zip(stores, argmaps):
+            # arguments are evaluated in call order, then all fields are bound at once
+            st.targets = [ast.Tuple(elts=[ast.Name(id=fld[f], ctx=ast.Store()) for f, _ in m], ctx=ast.Store())]
+            st.value = ast.Tuple(elts=[a for _, a in m], ctx=ast.Load())
+            ast.fix_missing_locations(st)
+        for l in loads:
+            f = l.attr if isinstance(l, ast.Attribute) else fields[l.slice.value]
+            new = ast.copy_location(ast.Name(id=fld[f], ctx=ast.Load()), l)
+            p = par.get(id(l))
+            for field, val in ast.iter_fields(p):
+                if val is l:
+                    setattr(p, field, new)
+                elif isinstance(val, list):
+                    for i, e in enumerate(val):
+                        if e is l:
+                            val[i] = new
+        k += 1
+    return k
+
+
+def renest_flat_loops(fn):
+    """I; while True: (if C: I else: B)   ->   while True: (I; while not C: B)
+    where I is the same run of plain assignments before the loop and in the C branch, and B does not break / continue the
+    loop: both execute I, then (test C; B)* until C holds, then I again ... - the identical sequence of tests and effects."""
+    k = 0
+    for blk in _blocks(fn):
+        for i, w in enumerate(blk):
+            if not (isinstance(w, ast.While) and isinstance(w.test, ast.Constant) and w.test.value is True and not w.orelse and
+                    len(w.body) == 1 and isinstance(w.body[0], ast.If) and w.body[0].orelse):
+                continue
+            br = w.body[0]
+            init = [t for t in br.body if not isinstance(t, (ast.Continue, ast.Pass))]
+            n = len(init)
+            if n == 0 or i < n or not all(isinstance(t, ast.Assign) and all(isinstance(x, ast.Name) for x in t.targets) for t in init):
+                continue
+            if [src(t) for t in blk[i - n:i]] != [src(t) for t in init]:
+                continue
+            if any(isinstance(t, ast.Continue) for t in br.body[:-1]) or _free_jumps(br.orelse):
+                continue
+            inner = ast.While(test=negate(br.test), body=br.orelse, orelse=[])
+            ast.copy_location(inner, br)
+            w.body = init + [inner]
+            ast.fix_missing_locations(w)
+            del blk[i - n:i]
+            k += 1
+            break
+    return k
+
+
+def argsort_to_sorted(fn):
+    """decorate / argsort / undecorate:   S = [K(v) for v in M]; order = sorted(range(len(M)), key=S.__getitem__[, reverse=R]);
+    ... M[order[e]] ...     ->     order = sorted(M, key=<K>[, reverse=R]); ... order[e] ...
+    (both sorts are stable and compute every key once, in list order: the same permutation of the same elements)."""
+    par = {}
+    for n in ast.walk(fn):
+        for c in ast.iter_child_nodes(n):
+            par[id(c)] = n
+    k = 0
+    for blk in _blocks(fn):
+        for st in list(blk):
+            if not (isinstance(st, ast.Assign) and len(st.targets) == 1 and isinstance(st.targets[0], ast.Name) and isinstance(st.value, ast.Call) and
+                    src(st.value.func) == "sorted" and len(st.value.args) == 1):
+                continue
+            call = st.value
+            a = call.args[0]
+            kw = {x.arg: x.value for x in call.keywords}
+            if not (set(kw) <= {"key", "reverse"} and "key" in kw and isinstance(kw["key"], ast.Attribute) and kw["key"].attr == "__getitem__" and
+                    isinstance(kw["key"].value, ast.Name)):
+                continue
+            if not (isinstance(a, ast.Call) and src(a.func) == "range" and len(a.args) == 1 and isinstance(a.args[0], ast.Call) and
+                    src(a.args[0].func) == "len" and len(a.args[0].args) == 1 and isinstance(a.args[0].args[0], ast.Name)):
+                continue
+            M, S, order = a.args[0].args[0].id, kw["key"].value.id, st.targets[0].id
+            sdefs = [t for t in blk if isinstance(t, ast.Assign) and len(t.targets) == 1 and isinstance(t.targets[0], ast.Name) and t.targets[0].id == S]
+            if len(sdefs) != 1 or blk.index(sdefs[0]) > blk.index(st):
+                continue
+            sd = sdefs[0]
+            lc = sd.value
+            if not (isinstance(lc, ast.ListComp) and len(lc.generators) == 1 and not lc.generators[0].ifs and not lc.generators[0].is_async and
+                    isinstance(lc.generators[0].iter, ast.Name) and lc.generators[0].iter.id == M and isinstance(lc.generators[0].target, ast.Name)):
+                continue
+            v = lc.generators[0].target.id
+            # S: only its definition and the key;  order: only len(order) and M[order[e]];  M: never written after its definition
+            s_uses = [n for n in ast.walk(fn) if isinstance(n, ast.Name) and n.id == S]
+            if len(s_uses) != 2:
+                continue
+            ok = True
+            repl = []
+            for n in ast.walk(fn):
+                if isinstance(n, ast.Name) and n.id == order and n is not st.targets[0]:
+                    p1 = par.get(id(n))
+                    if isinstance(p1, ast.Call) and src(p1.func) == "len":
+                        continue
+                    p2 = par.get(id(p1))
+                    if isinstance(p1, ast.Subscript) and p1.value is n and isinstance(p1.ctx, ast.Load) and isinstance(p2, ast.Subscript) and \
+                            p2.slice is p1 and isinstance(p2.value, ast.Name) and p2.value.id == M and isinstance(p2.ctx, ast.Load):
+                        repl.append((p2, p1))
+                    else:
+                        ok = False
+                elif isinstance(n, ast.Name) and n.id == M and isinstance(n.ctx, ast.Store):
+                    d = par.get(id(n))
+                    if not (isinstance(d, ast.Assign) and d in blk and blk.index(d) < blk.index(sd)):
+                        ok = False
+                elif isinstance(n, ast.Name) and n.id == M:
+                    p1 = par.get(id(n))
+                    if isinstance(p1, ast.Attribute) or (isinstance(p1, ast.Subscript) and not isinstance(p1.ctx, ast.Load)):
+                        ok = False
+            if not ok:
+                continue
+            K = lc.elt
+            if isinstance(K, ast.Call) and len(K.args) == 1 and not K.keywords and isinstance(K.args[0], ast.Name) and K.args[0].id == v and \
+                    not _mentions_name(K.func, v):
+                key = K.func
+            else:
+                key = ast.Lambda(args=ast.arguments(posonlyargs=[], args=[ast.arg(arg=v)], kwonlyargs=[], kw_defaults=[], defaults=[]), body=K)
+            call.args = [ast.Name(id=M, ctx=ast.Load())]
+            call.keywords = [ast.keyword(arg="key", value=key)] + [x for x in call.keywords if x.arg == "reverse"]
+            for outer, inner_ in repl:
+                p = par.get(id(outer))
+                for field, val in ast.iter_fields(p):
+                    if val is outer:
+                        setattr(p, field, inner_)
+                    elif isinstance(val, list):
+                        for i, e in enumerate(val):
+                            if e is outer:
+                                val[i] = inner_
+            blk.remove(sd)
+            ast.fix_missing_locations(fn)
+            k += 1
+    return k
+
+
+def merge_repeated_tests(fn):
+    """if f: A1 else: B1;  S;  if f: A2 else: B2     (f a local flag - a plain name, possibly negated - that nothing in between
+    rebinds)   ->   if f: A1; S; A2 else: B1; S; B2.   Every path executes the same statements in the same order."""
+    k = 0
+
+    def flag_of(t):
+        pol = True
+        while isinstance(t, ast.UnaryOp) and isinstance(t.op, ast.Not):
+            t, pol = t.operand, not pol
+        return (t.id, pol) if isinstance(t, ast.Name) else None
+    params = {a.arg for a in fn.args.args + fn.args.kwonlyargs + fn.args.posonlyargs}
+    again = True
+    while again:
+        again = False
+        for blk in _blocks(fn):
+            for i, a in enumerate(blk):
+                if not isinstance(a, ast.If):
+                    continue
+                fa = flag_of(a.test)
+                if fa is None or fa[0] in params:
+                    continue
+                for j in range(i + 1, len(blk)):
+                    b = blk[j]
+                    if isinstance(b, ast.If) and flag_of(b.test) is not None and flag_of(b.test)[0] == fa[0]:
+                        between = blk[i + 1:j]
+                        stores = any(isinstance(n, ast.Name) and n.id == fa[0] and isinstance(n.ctx, (ast.Store, ast.Del))
+                                     for t in [a] + between for n in ast.walk(t))
+                        nested = any(isinstance(n, (ast.FunctionDef, ast.Lambda)) for t in between for n in ast.walk(t))
+                        if stores or nested or len(between) > 12:
+                            break
+                        # paths that leave the first statement early (return / break / continue) are unaffected: what follows
+                        # them is unreachable on that path in both versions
+                        same = flag_of(b.test)[1] == fa[1]
+                        b_then, b_else = (b.body, b.orelse) if same else (b.orelse, b.body)
+                        a.body = a.body + copy.deepcopy(between) + b_then
+                        a.orelse = (a.orelse or []) + copy.deepcopy(between) + b_else
+                        if not a.orelse:
+                            a.orelse = []
+                        del blk[i + 1:j + 1]
+                        ast.fix_missing_locations(a)
+                        k += 1
+                        again = True
+                        break
+                    if any(isinstance(n, ast.Name) and n.id == fa[0] and isinstance(n.ctx, (ast.Store, ast.Del)) for n in ast.walk(b)):
+                        break
+                if again:
+                    break
+            if again:
+                break
+    return k
+
+
+def split_webs(fn, known):
+    """A new local with several definitions whose def-use webs are disjoint (no use is reached by definitions of two webs) is
+    really several variables: each web gets its own name (live-range splitting), so that single-definition rules apply."""
+    from . import cfg as C
+    from . import effects as E
+    cands = {}
+    for n in ast.walk(fn):
+        if isinstance(n, ast.Name) and isinstance(n.ctx, ast.Store) and n.id not in known and not n.id.startswith("__"):
+            cands.setdefault(n.id, []).append(n)
+    cands = {x: ds for x, ds in cands.items() if len(ds) >= 2}
+    if not cands:
+        return 0
+    if any(isinstance(n, (ast.FunctionDef, ast.Lambda, ast.ListComp, ast.GeneratorExp, ast.SetComp, ast.DictComp)) and n is not fn and
+           any(isinstance(m, ast.Name) and m.id in cands for m in ast.walk(n)) for n in ast.walk(fn)):
+        # names captured by nested scopes / comprehensions are left alone
+        inner_names = {m.id for n in ast.walk(fn) if isinstance(n, (ast.FunctionDef, ast.Lambda, ast.ListComp, ast.GeneratorExp, ast.SetComp, ast.DictComp))
+                       and n is not fn for m in ast.walk(n) if isinstance(m, ast.Name)}
+        cands = {x: ds for x, ds in cands.items() if x not in inner_names}
+        if not cands:
+            return 0
+    try:
+        g = C.CFG(fn)
+    except Exception:
+        return 0
+    k = 0
+    for x, stores in sorted(cands.items()):
+        # definition sites: CFG nodes that store x (plain assignment statements / for headers only)
+        dnodes = {}
+        ok = True
+        for st in stores:
+            try:
+                nd = g.node_of(st)
+            except Exception:
+                ok = False
+                break
+            if nd in dnodes:
+                ok = False      # two stores in one node (tuple target with x twice ..)
+                break
+            if nd.kind == "stmt" and isinstance(nd.ast, ast.AugAssign):
+                ok = False
+                break
+            dnodes[nd] = st
+        if not ok:
+            continue
+        # reaching definitions (may): forward, union
+        IN = {n: set() for n in g.G.nodes}
+        OUT = {n: set() for n in g.G.nodes}
+        work = list(g.G.nodes)
+        while work:
+            n = work.pop()
+            i = set()
+            for p in g.G.predecessors(n):
+                i |= OUT[p]
+            if n is g.entry:
+                i = {"<entry>"}
+            IN[n] = i
+            o = {n} if n in dnodes else i
+            if o != OUT[n]:
+                OUT[n] = o
+                work.extend(g.G.successors(n))
+        parent = {d: d for d in dnodes}
+
+        def find(a):
+            while parent[a] is not a:
+                a = parent[a]
+            return a
+        uses = []
+        for n in g.G.nodes:
+            if n.ast is None:
+                continue
+            lds = [m for r in E.node_exprs(n) for m in ast.walk(r) if isinstance(m, ast.Name) and m.id == x and isinstance(m.ctx, ast.Load)]
+            if not lds:
+                continue
+            rd = IN[n]
+            if "<entry>" in rd or not rd:
+                ok = False      # possibly unbound use: leave the variable alone
+                break
+            rd = sorted(rd, key=lambda d: d.id)
+            for d in rd[1:]:
+                ra, rb = find(rd[0]), find(d)
+                if ra is not rb:
+                    parent[rb] = ra
+            uses.append((n, lds, rd[0]))
+        if not ok:
+            continue
+        roots = sorted({find(d) for d in dnodes}, key=lambda d: d.id)
+        if len(roots) < 2:
+            continue
+        taken = {m.id for m in ast.walk(fn) if isinstance(m, ast.Name)}
+        names = {}
+        for idx, r in enumerate(roots):
+            if idx == 0:
+                names[r] = x
+            else:
+                nm = "%s_w%d" % (x, idx + 1)
+                while nm in taken:
+                    nm += "_"
+                taken.add(nm)
+                names[r] = nm
+        for d, st in dnodes.items():
+            st.id = names[find(d)]
+        for n, lds, d0 in uses:
+            for m in lds:
+                m.id = names[find(d0)]
+        k += 1
+    return k
+
+
+def _free_jumps(stmts):
+    """break / continue statements in stmts that are not inside a loop of stmts"""
+    for t in stmts:
+        if isinstance(t, (ast.Break, ast.Continue)):
+            return True
+        if isinstance(t, (ast.For, ast.While)):
+            if _free_jumps(t.orelse):
+                return True
+            continue
+        for field in ("body", "orelse", "finalbody"):
+            if _free_jumps(getattr(t, field, None) or []):
+                return True
+        if isinstance(t, ast.Try):
+            for h in t.handlers:
+                if _free_jumps(h.body):
+                    return True
+    return False
+
+
 def thread_bool_flags(fn):
-    """T; if f: X else: Y  where T is an if/else tree every path of which ends with `f = True|False` (f an inliner temporary
-    used nowhere else): X / Y are moved to the ends of those paths and the test on f disappears (jump threading)."""
+    """T; if <test on f>: X else: Y   where T is an if/else tree (or a loop with an else clause) every path of which ends with an
+    assignment to the inliner temporary f, and the test is `f`, `not f`, `f is None` or `f is not None`: the test statement is
+    moved to the end of each of those paths (tail duplication - always semantics-preserving), and decided on the spot where the
+    assigned value is a literal (jump threading)."""
     k = 0
 
     def leaves(stmts, f):
-        """assignment sites (block, index, const) at the end of every path through stmts, or None"""
+        """assignment sites (block, index) at the end of every path through stmts, or None"""
         if not stmts:
             return None
         last = stmts[-1]
-        if isinstance(last, ast.Assign) and len(last.targets) == 1 and isinstance(last.targets[0], ast.Name) and last.targets[0].id == f and \
-                isinstance(last.value, ast.Constant) and isinstance(last.value.value, bool):
-            return [(stmts, len(stmts) - 1, last.value.value)]
+        if isinstance(last, ast.Break) and len(stmts) >= 2:
+            r = leaves(stmts[:-1], f)
+            if r is None:
+                return None
+            # indices refer to the original list
+            return [(stmts if b is not stmts[:-1] and False else b, i) for b, i in r] if False else _rebase(r, stmts)
+        if isinstance(last, ast.Assign) and len(last.targets) == 1 and isinstance(last.targets[0], ast.Name) and last.targets[0].id == f:
+            return [(stmts, len(stmts) - 1)]
         if isinstance(last, ast.If) and last.orelse:
             a, b = leaves(last.body, f), leaves(last.orelse, f)
             if a is None or b is None:
                 return None
             return a + b
+        if isinstance(last, (ast.For, ast.While)) and last.orelse:
+            # every break of the loop is preceded by an assignment to f, and the else clause ends with one
+            b = leaves(last.orelse, f)
+            if b is None:
+                return None
+            sites = []
+            ok = [True]
+
+            def scan(block):
+                for idx, t in enumerate(block):
+                    if isinstance(t, ast.Break):
+                        prev = block[idx - 1] if idx > 0 else None
+                        if isinstance(prev, ast.Assign) and len(prev.targets) == 1 and isinstance(prev.targets[0], ast.Name) and prev.targets[0].id == f:
+                            sites.append((block, idx - 1))
+                        else:
+                            ok[0] = False
+                    elif isinstance(t, ast.If):
+                        scan(t.body)
+                        scan(t.orelse)
+                    elif isinstance(t, (ast.For, ast.While)):
+                        if any(isinstance(x, ast.Break) for x in ast.walk(t)):
+                            pass        # breaks of an inner loop do not leave this one
+            scan(last.body)
+            if not ok[0] or not sites:
+                return None
+            return sites + b
         return None
+
+    def _rebase(r, stmts):
+        # leaves() was called on a slice copy: map (slice, i) back to the original list (same positions)
+        out = []
+        for b, i in r:
+            out.append((stmts, i) if len(b) == len(stmts) - 1 and all(x is y for x, y in zip(b, stmts)) else (b, i))
+        return out
+
+    def static_truth(test, f, value):
+        """truth of the test when f holds the literal `value`; None if not decidable"""
+        t, pol = test, True
+        while isinstance(t, ast.UnaryOp) and isinstance(t.op, ast.Not):
+            t, pol = t.operand, not pol
+        if isinstance(t, ast.Name) and t.id == f:
+            return bool(value) == pol
+        if isinstance(t, ast.Compare) and len(t.ops) == 1 and isinstance(t.left, ast.Name) and t.left.id == f and \
+                isinstance(t.comparators[0], ast.Constant) and t.comparators[0].value is None and isinstance(t.ops[0], (ast.Is, ast.IsNot)):
+            r = (value is None) if isinstance(t.ops[0], ast.Is) else (value is not None)
+            return r == pol
+        return None
+
+    def test_on(test, f):
+        t = test
+        while isinstance(t, ast.UnaryOp) and isinstance(t.op, ast.Not):
+            t = t.operand
+        if isinstance(t, ast.Name) and t.id == f:
+            return True
+        return isinstance(t, ast.Compare) and len(t.ops) == 1 and isinstance(t.left, ast.Name) and t.left.id == f and \
+            isinstance(t.comparators[0], ast.Constant) and t.comparators[0].value is None and isinstance(t.ops[0], (ast.Is, ast.IsNot))
     again = True
     while again:
         again = False
@@ -1543,39 +2295,48 @@ def thread_bool_flags(fn):
                 s = blk[i]
                 if not isinstance(s, ast.If):
                     continue
-                t, pol = s.test, True
-                while isinstance(t, ast.UnaryOp) and isinstance(t.op, ast.Not):
-                    t, pol = t.operand, not pol
-                if not (isinstance(t, ast.Name) and t.id.startswith("__")):
+                names = {n.id for n in ast.walk(s.test) if isinstance(n, ast.Name)}
+                params = {a.arg for a in fn.args.args + fn.args.kwonlyargs + fn.args.posonlyargs}
+                cand = [n for n in names if n not in params]
+                if len(cand) != 1 or not test_on(s.test, cand[0]):
                     continue
-                f = t.id
+                f = cand[0]
                 prev = blk[i - 1]
-                if not isinstance(prev, ast.If):
+                if isinstance(prev, ast.Assign):
                     continue
                 lv = leaves([prev], f)
                 if lv is None:
                     continue
-                # f is read only by this test and written only at the leaves
-                reads_f = [n for n in ast.walk(fn) if isinstance(n, ast.Name) and n.id == f and isinstance(n.ctx, ast.Load)]
+                lv = [(prev_b if prev_b is not None else b, idx) for (b, idx), prev_b in zip(lv, [None] * len(lv))]
+                if isinstance(prev, (ast.For, ast.While)) and _free_jumps(s.body + s.orelse):
+                    continue
+                # f is written only at the leaves (one initialising statement directly before the tree is tolerated)
+                leaf_targets = {id(b[idx].targets[0]) for b, idx in lv}
                 writes_f = [n for n in ast.walk(fn) if isinstance(n, ast.Name) and n.id == f and isinstance(n.ctx, ast.Store)]
-                if len(reads_f) != 1 or len(writes_f) != len(lv):
-                    # an initial `f = None/False` before the tree is tolerated when it is the statement just before it
-                    extra = [w for w in writes_f if not any(w is site[0][site[1]].targets[0] for site in lv)]
-                    if len(reads_f) != 1 or len(extra) != 1:
+                extra = [w for w in writes_f if id(w) not in leaf_targets]
+                if extra:
+                    if len(extra) != 1 or i < 2 or not (isinstance(blk[i - 2], ast.Assign) and blk[i - 2].targets[0] is extra[0]):
                         continue
-                    init = None
-                    for b2 in _blocks(fn):
-                        for st in b2:
-                            if isinstance(st, ast.Assign) and st.targets[0] is extra[0]:
-                                init = (b2, st)
-                    if init is None or init[0] is not blk or blk.index(init[1]) != i - 2:
-                        continue
-                    blk.remove(init[1])
+                # f is read only inside the test statement
+                inside = {id(n) for n in ast.walk(s)}
+                if any(isinstance(n, ast.Name) and n.id == f and isinstance(n.ctx, ast.Load) and id(n) not in inside for n in ast.walk(fn)):
+                    continue
+                for site_blk, idx in lv:
+                    val = site_blk[idx].value
+                    truth = static_truth(s.test, f, val.value) if isinstance(val, ast.Constant) else None
+                    if truth is None:
+                        tail = [copy.deepcopy(s)]
+                        site_blk[idx + 1:idx + 1] = tail
+                    else:
+                        tail = copy.deepcopy(s.body if truth else s.orelse)
+                        uses = any(isinstance(n, ast.Name) and n.id == f for t in tail for n in ast.walk(t))
+                        if uses:
+                            site_blk[idx + 1:idx + 1] = tail
+                        else:
+                            site_blk[idx:idx + 1] = tail if tail else [ast.copy_location(ast.Pass(), site_blk[idx])]
+                if extra:
+                    del blk[i - 2]
                     i -= 1
-                X, Y = (s.body, s.orelse) if pol else (s.orelse, s.body)
-                for site_blk, idx, const in lv:
-                    tail = copy.deepcopy(X if const else Y)
-                    site_blk[idx:idx + 1] = tail if tail else [ast.copy_location(ast.Pass(), site_blk[idx])]
                 del blk[i]
                 ast.fix_missing_locations(fn)
                 k += 1
@@ -1712,6 +2473,29 @@ def expand_dict_splats(fn):
     return k
 
 
+def open_inline_splats(fn):
+    """f(x=1, **{'a': u, 'b': v}) -> f(x=1, a=u, b=v): a dictionary display with constant string keys splatted in place."""
+    k = 0
+    for n in ast.walk(fn):
+        if isinstance(n, ast.Call) and any(kw.arg is None and isinstance(kw.value, ast.Dict) for kw in n.keywords):
+            new = []
+            ok = True
+            for kw in n.keywords:
+                if kw.arg is None and isinstance(kw.value, ast.Dict):
+                    if not all(isinstance(x, ast.Constant) and isinstance(x.value, str) and x.value.isidentifier() for x in kw.value.keys):
+                        ok = False
+                        break
+                    new += [ast.keyword(arg=x.value, value=v) for x, v in zip(kw.value.keys, kw.value.values)]
+                else:
+                    new.append(kw)
+            names = [kw.arg for kw in new if kw.arg]
+            if ok and len(names) == len(set(names)):
+                n.keywords = new
+                ast.fix_missing_locations(n)
+                k += 1
+    return k
+
+
 def unroll_literal_loops(fn, limit=8):
     """`for a, b in ((1, x), (2, y)): BODY` over a literal tuple/list of at most `limit` elements whose loop variables are not
     assigned in BODY and not used after the loop, without break/continue: BODY is repeated with the elements substituted."""
@@ -1753,6 +2537,143 @@ def unroll_literal_loops(fn, limit=8):
                     continue
             i += 1
     return k
+
+
+def dispatch_tables(tree):
+    """Module-level names bound exactly once to a tuple display whose elements are literals or names of module-level functions
+    (themselves defined once and never rebound): name -> Tuple AST."""
+    counts = {}
+    for n in ast.walk(tree):
+        if isinstance(n, ast.Name) and isinstance(n.ctx, (ast.Store, ast.Del)):
+            counts[n.id] = counts.get(n.id, 0) + 1
+        if isinstance(n, (ast.Global, ast.Nonlocal)):
+            for x in n.names:
+                counts[x] = counts.get(x, 0) + 10
+    fdefs = {}
+    for n in ast.walk(tree):
+        if isinstance(n, (ast.FunctionDef, ast.ClassDef)):
+            fdefs[n.name] = fdefs.get(n.name, 0) + 1
+    mod_fns = {n.name for n in tree.body if isinstance(n, ast.FunctionDef) and fdefs.get(n.name) == 1 and n.name not in counts}
+    out = {}
+    for st in tree.body:
+        if isinstance(st, ast.Assign) and len(st.targets) == 1 and isinstance(st.targets[0], ast.Name) and counts.get(st.targets[0].id) == 1 and \
+                isinstance(st.value, ast.Tuple) and st.value.elts and \
+                all(isinstance(e, ast.Constant) or (isinstance(e, ast.Name) and e.id in mod_fns) for e in st.value.elts):
+            out[st.targets[0].id] = st.value
+    return out
+
+
+def open_tuple_dispatch(tree, tables):
+    """TABLE[bool(c)] / TABLE[int(c)] / TABLE[c] with c a comparison and TABLE a two-element constant tuple  ->  (TABLE[1] if c
+    else TABLE[0]);  (f1 if c else f0)(args) -> f1(args) if c else f0(args)   (same evaluation order: c, then the arguments)."""
+    k = [0]
+
+    def cond_of(sl):
+        if isinstance(sl, ast.Call) and isinstance(sl.func, ast.Name) and sl.func.id in ("bool", "int") and len(sl.args) == 1 and not sl.keywords:
+            sl = sl.args[0]
+            if isinstance(sl, ast.Call) and isinstance(sl.func, ast.Name) and sl.func.id == "bool" and len(sl.args) == 1:
+                sl = sl.args[0]
+        if isinstance(sl, ast.Compare) or (isinstance(sl, ast.UnaryOp) and isinstance(sl.op, ast.Not)) or isinstance(sl, ast.BoolOp):
+            # (a BoolOp yields one of its operands, not a bool: only under bool()/int() - handled above - or when all operands
+            # are comparisons)
+            if isinstance(sl, ast.BoolOp) and not all(isinstance(v, ast.Compare) for v in sl.values):
+                return None
+            return sl
+        return None
+
+    for fn in [n for n in ast.walk(tree) if isinstance(n, ast.FunctionDef)]:
+        shadow = local_names(fn)
+
+        class T(ast.NodeTransformer):
+            def visit_Subscript(self, n):
+                self.generic_visit(n)
+                tab = None
+                if isinstance(n.value, ast.Name) and n.value.id in tables and n.value.id not in shadow:
+                    tab = tables[n.value.id]
+                elif isinstance(n.value, ast.Tuple) and all(isinstance(e, (ast.Constant, ast.Name)) for e in n.value.elts):
+                    tab = n.value
+                if tab is None or len(tab.elts) != 2 or not isinstance(n.ctx, ast.Load):
+                    return n
+                c = cond_of(n.slice)
+                if c is None:
+                    return n
+                k[0] += 1
+                return ast.copy_location(ast.IfExp(test=c, body=copy.deepcopy(tab.elts[1]), orelse=copy.deepcopy(tab.elts[0])), n)
+
+            def visit_Call(self, n):
+                self.generic_visit(n)
+                if isinstance(n.func, ast.IfExp) and isinstance(n.func.body, ast.Name) and isinstance(n.func.orelse, ast.Name):
+                    a = ast.Call(func=n.func.body, args=copy.deepcopy(n.args), keywords=copy.deepcopy(n.keywords))
+                    b = ast.Call(func=n.func.orelse, args=n.args, keywords=n.keywords)
+                    k[0] += 1
+                    return ast.copy_location(ast.IfExp(test=n.func.test, body=a, orelse=b), n)
+                return n
+        T().visit(fn)
+        ast.fix_missing_locations(fn)
+    return k[0]
+
+
+def unroll_literal_comprehensions(fn):
+    """sum(E for v in (a, b, ..)) -> ((0 + E[a]) + E[b]) ..;  [E for v in (a, b)] -> [E[a], E[b]]   for a literal tuple / list of
+    at most 8 simple elements (or a local bound exactly once to such a tuple), no filter: the iteration is written out."""
+    k = [0]
+    single = {}
+    counts = {}
+    for n in ast.walk(fn):
+        if isinstance(n, ast.Name) and isinstance(n.ctx, (ast.Store, ast.Del)):
+            counts[n.id] = counts.get(n.id, 0) + 1
+    for n in ast.walk(fn):
+        if isinstance(n, ast.Assign) and len(n.targets) == 1 and isinstance(n.targets[0], ast.Name) and counts.get(n.targets[0].id) == 1 and \
+                isinstance(n.value, ast.Tuple) and all(simple_arg(e) for e in n.value.elts):
+            # the elements' values must not change between the definition and the use: only parameters never rebound / subscripts of them
+            rd = {x.id for e in n.value.elts for x in ast.walk(e) if isinstance(x, ast.Name)}
+            if all(counts.get(r, 0) == 0 for r in rd):
+                single[n.targets[0].id] = n.value
+
+    def elements(it):
+        if isinstance(it, (ast.Tuple, ast.List)) and len(it.elts) <= 8 and all(simple_arg(e) for e in it.elts):
+            return it.elts
+        if isinstance(it, ast.Name) and it.id in single and len(single[it.id].elts) <= 8:
+            return single[it.id].elts
+        return None
+
+    def instances(comp):
+        if len(comp.generators) != 1:
+            return None
+        g = comp.generators[0]
+        if g.ifs or g.is_async or not isinstance(g.target, ast.Name):
+            return None
+        el = elements(g.iter)
+        if el is None:
+            return None
+        if any(isinstance(x, (ast.Lambda, ast.GeneratorExp, ast.ListComp)) for x in ast.walk(comp.elt)):
+            return None
+        return [_Rename({}, {g.target.id: e}).visit(copy.deepcopy(comp.elt)) for e in el]
+
+    class T(ast.NodeTransformer):
+        def visit_Call(self, n):
+            self.generic_visit(n)
+            if isinstance(n.func, ast.Name) and n.func.id == "sum" and len(n.args) == 1 and not n.keywords and \
+                    isinstance(n.args[0], (ast.GeneratorExp, ast.ListComp)):
+                inst = instances(n.args[0])
+                if inst is not None:
+                    acc = ast.Constant(value=0)
+                    for e in inst:
+                        acc = ast.BinOp(left=acc, op=ast.Add(), right=e)
+                    k[0] += 1
+                    return ast.copy_location(acc, n)
+            return n
+
+        def visit_ListComp(self, n):
+            self.generic_visit(n)
+            inst = instances(n)
+            if inst is not None:
+                k[0] += 1
+                return ast.copy_location(ast.List(elts=inst, ctx=ast.Load()), n)
+            return n
+    T().visit(fn)
+    ast.fix_missing_locations(fn)
+    return k[0]
 
 
 def module_constants(tree):
@@ -1958,6 +2879,9 @@ def normalize_tree(file, tree, vocab):
     log = []
     # conditional expressions at statement level are opened first, so that helper calls inside them become ordinary statements
     pre = 0
+    td = open_tuple_dispatch(tree, dispatch_tables(tree))
+    if td:
+        log.append("%d two-way table look-up(s) / dispatched call(s) written as conditional expressions" % td)
     for f0 in [n for n in ast.walk(tree) if isinstance(n, ast.FunctionDef)]:
         pre += expand_return_ifexp(f0)
     if pre:
@@ -1984,6 +2908,7 @@ def normalize_tree(file, tree, vocab):
     mc = substitute_module_constants(tree, module_constants(tree))
     if mc:
         log.append("%d use(s) of module-level numeric constants replaced by their definitions" % mc)
+    rectypes = record_types(tree)
     for node in tree.body:
         fns = []
         if isinstance(node, ast.ClassDef):
@@ -1996,9 +2921,15 @@ def normalize_tree(file, tree, vocab):
         for cname, f, known in fns:
             STABLE[0] = stable_attrs(node if isinstance(node, ast.ClassDef) else None, f)
             CONTAINER_WRITES[0] = container_writes(node) if isinstance(node, ast.ClassDef) else {}
-            t0 = split_tuple_assigns(f)
-            t0 += expand_return_ifexp(f) + unroll_literal_loops(f) + expand_dict_splats(f)
+            t0 = scalarise_records(f, rectypes)
+            t0 += unroll_literal_comprehensions(f)
+            t0 += split_tuple_assigns(f)
+            t0 += expand_return_ifexp(f) + unroll_literal_loops(f) + expand_dict_splats(f) + open_inline_splats(f)
+            t0 += merge_repeated_tests(f)
             t0 += fold_none_tests(f, cname)
+            t0 += seed_list_literals(f)
+            t0 += argsort_to_sorted(f)
+            t0 += last_element_reads(f)
             t0 += scalarise_tuple_temps(f)
             t0 += coalesce_copies(f)
             t0 += rename_result_temps(f)
@@ -2013,10 +2944,16 @@ def normalize_tree(file, tree, vocab):
             g = guard_clauses(f)
             if g:
                 log.append("%s.%s: %d guard clause(s) -> if/else" % (cname, f.name, g))
+            rn = renest_flat_loops(f)
+            if rn:
+                log.append("%s.%s: %d flattened loop nest(s) re-nested" % (cname, f.name, rn))
             if known is not None:
                 fu = forward_unpack_targets(f, known | set(a.arg for a in f.args.args))
                 if fu:
                     log.append("%s.%s: %d unpacked value(s) stored directly" % (cname, f.name, fu))
+                sw = split_webs(f, known | set(a.arg for a in f.args.args))
+                if sw:
+                    log.append("%s.%s: %d new local(s) split into independent variables" % (cname, f.name, sw))
                 k = substitute_new_temps(f, known | set(a.arg for a in f.args.args))
                 if k:
                     log.append("%s.%s: %d new temporar%s substituted" % (cname, f.name, k, "y" if k == 1 else "ies"))
